@@ -65,6 +65,7 @@ func ribRun(args []string) error {
 	hookFirst := fs.Bool("hook-first", true, "register the post-change hook before creating the other instances")
 	reuse := fs.Int("reuse", 0, "percentage of id reuse in random sequences")
 	bad := fs.Int("bad", -1, "percentage of malformed operations in random sequences (-1 = default)")
+	nochecks := fs.Int("nochecks", 0, "replay that many of the input sequences a second time on a RIB without reference checks (mirror oracle only)")
 	small := fs.Int("small", 0, "percentage of random sequences over the small, state-aware alphabet")
 	fs.Parse(args)
 	w, err := os.Create(*out)
@@ -101,6 +102,23 @@ func ribRun(args []string) error {
 		walks++
 	}
 	rn.Close()
+	if *nochecks > 0 && *in != "" && rn.Hangs == 0 && rn.Panics == 0 {
+		un := &ribdrv.Runner{Sink: ribdrv.UncheckedSink{To: sink}, HookBeforeNIs: *hookFirst, NoChecks: true}
+		left := *nochecks
+		if _, err := readWalks(*in, func(ins []ribdrv.Input) error {
+			if left <= 0 {
+				return nil
+			}
+			left--
+			return un.Run(ins)
+		}); err != nil {
+			return err
+		}
+		un.Close()
+		rn.Calls += un.Calls
+		rn.Panics += un.Panics
+		rn.Hangs += un.Hangs
+	}
 	fmt.Printf("{\"walks\":%d,\"calls\":%d,\"events\":%d,\"panics\":%d,\"hangs\":%d}\n", walks, rn.Calls, sink.N, rn.Panics, rn.Hangs)
 	return nil
 }
